@@ -16,6 +16,9 @@ class Machinery(Exception):
     pass
 
 
+LENIENT = set()
+
+
 def log(msg):
     print("[check] " + msg, file=sys.stderr, flush=True)
 
@@ -83,6 +86,17 @@ def build_engine(engine, cfg):
     cmd = ["cargo", "build", "--release", "--offline"] + feats
     t0 = time.time()
     rc, out = run_cmd(cmd, cwd=os.path.join(VERIF, e["dir"]), env=env)
+    if rc != 0 and "verif_hooks.rs" in out and GUARD in env.get("RUSTFLAGS", ""):
+        # The state-copy hook destructures every field on purpose; a tree that added a field to
+        # Hasher / ChunkState / Output / OutputReader no longer compiles it. Fall back to the lenient
+        # variant (unknown fields ignored) in its own target directory, and say so.
+        env["RUSTFLAGS"] = env["RUSTFLAGS"] + " --cfg " + GUARD + "_lenient"
+        tdir = tdir + "-lenient"
+        env["CARGO_TARGET_DIR"] = tdir
+        rc, out = run_cmd(cmd, cwd=os.path.join(VERIF, e["dir"]), env=env)
+        if rc == 0:
+            LENIENT.add("%s/%s" % (engine, cfg))
+            log("built %s/%s with the LENIENT state-copy hook (the strict one no longer compiles)" % (engine, cfg))
     if rc != 0:
         raise Machinery("build of %s/%s failed:\n%s" % (engine, cfg, out[-6000:]))
     log("built %s/%s in %.1fs" % (engine, cfg, time.time() - t0))
@@ -196,6 +210,8 @@ def write_evidence(prop, tier, seed, level, merged, n_violations, wall):
     for k in ("bounds", "known_findings_reported", "ledger_levels_compared", "shared_mutable_locations"):
         if k in merged:
             cov[k] = merged[k]
+    if LENIENT:
+        merged["notes"].append("state-copy hook H4 built in lenient mode (unknown struct fields ignored when fingerprinting states) for: " + ", ".join(sorted(LENIENT)))
     if merged["notes"]:
         cov["notes"] = merged["notes"]
     ev = {"property_id": prop, "tier": tier, "seed": int(seed), "level": level, "coverage": cov,
